@@ -7,6 +7,14 @@
     - [EndedEx]: session 11 is dropped; the later publication to its topic and
       the later call of its procedure send it nothing; after it joined again
       it is served again.
+    - [InvEx]: the INVOCATIONs sent to session 11: ids 1, 2, then 1 again (a
+      further chunk of the first call); 11 is dropped, joins again and is sent
+      id 1 afresh.
+    - [UnregEx]: sessions 11 and 12 share a registration; a progressive call is
+      routed to 11; 11 unregisters and is answered UNREGISTERED; the caller's
+      next chunk is still delivered to 11 under that registration id — the
+      literal "no INVOCATION after UNREGISTERED" is false of the model; what
+      holds is the statement with further chunks excepted.
     - [GateEx]: a history with an authorizer that refuses a first CALL:
       [gate_fresh] holds although the gate refuses.
     - [Refute]: the authorizer refuses a further chunk of a pending progressive
@@ -15,7 +23,7 @@
       false of the model (and of router/realm.go authzMessage). *)
 From Nexus Require Import Router.Realm Router.RealmProofs Router.RealmWf Router.RealmStep.
 From Nexus Require Import Router.DealerLib Router.DealerReply Router.DealerTrace.
-From Nexus Require Import Router.RealmTraceLib Router.RealmTrace Router.RealmTraceC05.
+From Nexus Require Import Router.RealmTraceLib Router.RealmTrace Router.RealmTraceC05 Router.RealmTraceInv Router.RealmTraceC03.
 From Coq Require Import Lia.
 
 Definition feats (l : list string) : value := VDict [("features", VDict (map (fun f => (f, VBool true)) l))].
@@ -227,3 +235,95 @@ Module EndedEx.
     split; [intros l h [H|[H|[]]]; discriminate H|]. vm_compute. reflexivity.
   Qed.
 End EndedEx.
+
+Module InvEx.
+  Definition cfg0 : config := mkConfig false false false true true false [] None.
+  Definition opsI : list op :=
+    [OJoin 10 false hello_all; OJoin 11 false hello_all;
+     OMsg 11 (CRegister 1 [] "p") 0;
+     OMsg 10 (CCall 7 [("progress", VBool true)] "p" [vnat 1] []) 0;
+     OMsg 10 (CCall 8 [] "p" [vnat 2] []) 0;
+     OMsg 10 (CCall 7 [] "p" [vnat 3] []) 0;
+     ODrop 11; OJoin 11 false hello_all; OMsg 11 (CRegister 1 [] "p") 0;
+     OMsg 10 (CCall 9 [] "p" [vnat 4] []) 0].
+
+  Lemma hyps : Forall op_ok opsI /\ k0 cfg0 + N.of_nat (List.length opsI) <= max_idN.
+  Proof. split; [unfold opsI; ops_ok|apply N.leb_le; reflexivity]. Qed.
+
+  (** the INVOCATIONs and JOINs of the history, in order *)
+  Definition inv1 : out := (11, RInvocation 1 24 [("progress", VBool true); ("procedure", vuri "p")] [vnat 1] []).
+  Definition inv2 : out := (11, RInvocation 2 24 [("progress", VBool false); ("procedure", vuri "p")] [vnat 2] []).
+  Definition inv1' : out := (11, RInvocation 1 24 [("progress", VBool false)] [vnat 3] []).
+  Definition inv1'' : out := (11, RInvocation 1 25 [("progress", VBool false); ("procedure", vuri "p")] [vnat 4] []).
+
+  Lemma invocations :
+    filter (fun e => match e with EOut m => is_inv m | EIn (OJoin _ _ _) => true | EIn _ => false end)
+           (trace cfg0 opsI) =
+    [EIn (OJoin 10 false hello_all); EIn (OJoin 11 false hello_all);
+     EOut inv1; EOut inv2; EOut inv1'; EIn (OJoin 11 false hello_all); EOut inv1''].
+  Proof. vm_compute. reflexivity. Qed.
+
+  (** the further chunk repeats an id sent before (second disjunct of the theorem) *)
+  Lemma chunk_repeats : exists pre post, trace cfg0 opsI = pre ++ EOut inv1' :: post /\ inv_ev 11 1 (EOut inv1') /\ sent 11 1 pre.
+  Proof.
+    exists (firstn 9 (trace cfg0 opsI)), (skipn 10 (trace cfg0 opsI)).
+    split; [vm_compute; reflexivity|]. split; [do 4 eexists; reflexivity|].
+    exists (EOut inv1). split; [vm_compute; tauto|do 4 eexists; reflexivity].
+  Qed.
+End InvEx.
+
+Module UnregEx.
+  Definition cfg0 : config := mkConfig false false false true true false [] None.
+  Definition rr : dict := [("invoke", vstr "roundrobin")].
+  Definition chunkA := OMsg 10 (CCall 7 [("progress", VBool true)] "p" [vnat 1] []) 0.
+  Definition chunkB := OMsg 10 (CCall 7 [] "p" [vnat 2] []) 0.
+  Definition opsU : list op :=
+    [OJoin 10 false hello_all; OJoin 11 false hello_all; OJoin 12 false hello_all;
+     OMsg 11 (CRegister 1 rr "p") 0; OMsg 12 (CRegister 2 rr "p") 0;
+     chunkA;
+     OMsg 11 (CUnregister 3 24) 0;
+     chunkB;
+     OMsg 10 (CCall 8 [] "p" [vnat 3] []) 0].
+
+  Lemma outs : snd (run (init_realm cfg0) opsU) =
+    [[]; []; []; [(11, RRegistered 1 24)]; [(12, RRegistered 2 24)];
+     [(11, RInvocation 1 24 [("progress", VBool true); ("procedure", vuri "p")] [vnat 1] [])];
+     [(11, RUnregistered 3)];
+     [(11, RInvocation 1 24 [("progress", VBool false)] [vnat 2] [])];      (* the further chunk: still to 11 *)
+     [(12, RInvocation 1 24 [("progress", VBool false); ("procedure", vuri "p")] [vnat 3] [])]].   (* a new call: to 12 *)
+  Proof. vm_compute. reflexivity. Qed.
+
+  Lemma hyps : Forall op_ok opsU /\ k0 cfg0 + N.of_nat (List.length opsU) <= max_idN /\
+               along gate_unreg_id (init_realm cfg0) opsU.
+  Proof.
+    split; [unfold opsU; ops_ok|]. split; [apply N.leb_le; reflexivity|].
+    apply gate_unreg_id_no_authz. reflexivity.
+  Qed.
+
+  Definition preU : list event :=
+    [EIn (OJoin 10 false hello_all); EIn (OJoin 11 false hello_all); EIn (OJoin 12 false hello_all);
+     EIn (OMsg 11 (CRegister 1 rr "p") 0); EOut (11, RRegistered 1 24);
+     EIn (OMsg 12 (CRegister 2 rr "p") 0); EOut (12, RRegistered 2 24);
+     EIn chunkA; EOut (11, RInvocation 1 24 [("progress", VBool true); ("procedure", vuri "p")] [vnat 1] [])].
+
+  (** UNREGISTERED, then an INVOCATION naming the registration, no REGISTERED in between *)
+  Theorem invocation_after_unregistered :
+    exists cfg ops y rid pre0 q orc mid b det a kw post,
+      Forall op_ok ops /\ k0 cfg + N.of_nat (List.length ops) <= max_idN /\ c_authz cfg = None /\
+      trace cfg ops = pre0 ++ EIn (OMsg y (CUnregister q rid) orc) :: EOut (y, RUnregistered q) ::
+                      mid ++ EOut (y, RInvocation b rid det a kw) :: post /\
+      forall q', ~ In (EOut (y, RRegistered q' rid)) mid.
+  Proof.
+    exists cfg0, opsU, 11, 24, preU, 3, 0, [EIn chunkB], 1, [("progress", VBool false)], [vnat 2], [].
+    eexists.
+    split; [unfold opsU; ops_ok|]. split; [apply N.leb_le; reflexivity|]. split; [reflexivity|].
+    split; [vm_compute; reflexivity|]. intros q' [H|[]]. discriminate H.
+  Qed.
+
+  (** ... it repeats the id of the INVOCATION sent before the UNREGISTER *)
+  Lemma is_further_chunk : sent 11 1 preU.
+  Proof.
+    exists (EOut (11, RInvocation 1 24 [("progress", VBool true); ("procedure", vuri "p")] [vnat 1] [])).
+    split; [unfold preU; cbn; tauto|do 4 eexists; reflexivity].
+  Qed.
+End UnregEx.
